@@ -1665,3 +1665,73 @@ def m_vec_default(ex, n, a, f):
 @model(r'^<std::string::String as std::default::Default>::default$')
 def m_string_default(ex, n, a, f):
     return StringV(())
+
+
+# --------------------------------------------------------------------------- integer intrinsics
+@model(r'^std::intrinsics::(saturating_add|saturating_sub|wrapping_add|wrapping_sub|wrapping_mul|unchecked_add|unchecked_sub|unchecked_mul|add_with_overflow|sub_with_overflow|mul_with_overflow|three_way_compare)::<')
+def m_int_intrinsic(ex, n, a, f):
+    op = re.search(r'intrinsics::(\w+)::<', n).group(1)
+    tid = f['abi_args'][0]
+    bits, signed = ex.int_info(tid)
+    x, y = a
+    if op.startswith('wrapping_') or op.startswith('unchecked_'):
+        return ex.binop({'add': 'Add', 'sub': 'Sub', 'mul': 'Mul'}[op.split('_')[1]], x, y, tid)
+    if op.endswith('_with_overflow'):
+        return ex.checked({'add': 'Add', 'sub': 'Sub', 'mul': 'Mul'}[op.split('_')[0]], x, y, tid)
+    if op in ('saturating_add', 'saturating_sub'):
+        t = ex.checked('Add' if op.endswith('add') else 'Sub', x, y, tid)
+        res, ovf = t.fields
+        lo, hi = (-(1 << (bits - 1)), (1 << (bits - 1)) - 1) if signed else (0, (1 << bits) - 1)
+        if isinstance(ovf, bool):
+            if not ovf:
+                return res
+            # direction of saturation
+            if not signed:
+                return hi if op.endswith('add') else lo
+            yy = y if isinstance(y, int) else None
+            neg = (yy < 0) if op.endswith('add') else (yy > 0)
+            return lo if neg else hi
+        if not signed:
+            sat = z3.BitVecVal(hi if op.endswith('add') else lo, bits)
+        else:
+            yb = to_bv(y, bits)
+            neg = (yb < 0) if op.endswith('add') else (yb > 0)
+            sat = z3.If(neg, z3.BitVecVal(lo, bits), z3.BitVecVal(hi, bits))
+        return z3.If(ovf, sat, to_bv(res, bits))
+    raise Unsupported(f"intrinsic {op}")
+
+
+@model(r'^std::intrinsics::(ctpop|ctlz|cttz|ctlz_nonzero|cttz_nonzero|bswap|bitreverse)::<')
+def m_bit_intrinsic(ex, n, a, f):
+    op = re.search(r'intrinsics::(\w+)::<', n).group(1)
+    bits, signed = ex.int_info(f['abi_args'][0])
+    v = a[0]
+    if not isinstance(v, int):
+        raise Unsupported(f"bit intrinsic {op} on a symbolic value")
+    u = v & ((1 << bits) - 1)
+    if op == 'ctpop':
+        return bin(u).count('1')
+    if op.startswith('ctlz'):
+        return bits - u.bit_length()
+    if op.startswith('cttz'):
+        return bits if u == 0 else (u & -u).bit_length() - 1
+    if op == 'bswap':
+        return norm(int.from_bytes(u.to_bytes(bits // 8, 'little'), 'big'), bits, signed)
+    if op == 'bitreverse':
+        return norm(int(bin(u)[2:].zfill(bits)[::-1], 2), bits, signed)
+    raise Unsupported(op)
+
+
+@model(r'^std::intrinsics::(rotate_left|rotate_right|exact_div|unchecked_div|unchecked_rem|unchecked_shl|unchecked_shr)::<')
+def m_misc_intrinsic(ex, n, a, f):
+    op = re.search(r'intrinsics::(\w+)::<', n).group(1)
+    tid = f['abi_args'][0]
+    if op in ('exact_div', 'unchecked_div'):
+        return ex.binop('Div', a[0], a[1], tid)
+    if op == 'unchecked_rem':
+        return ex.binop('Rem', a[0], a[1], tid)
+    if op == 'unchecked_shl':
+        return ex.binop('Shl', a[0], a[1], tid, f['abi_args'][1])
+    if op == 'unchecked_shr':
+        return ex.binop('Shr', a[0], a[1], tid, f['abi_args'][1])
+    raise Unsupported(op)
